@@ -2,6 +2,7 @@ import Driver.Util
 import Driver.C03
 import Driver.C13
 import Driver.Meta
+import Driver.HH
 
 /-- one line in, one line out; the handler may carry state -/
 structure Handler where
@@ -14,7 +15,8 @@ def stateless (f : String → String) : Handler := ⟨Unit, (), fun _ l => ((), 
 def handlers : List (String × Handler) := [
   ("c03", stateless Driver.C03.handle),
   ("c13", stateless Driver.C13.handle),
-  ("meta", ⟨Driver.MetaD.St, {}, Driver.MetaD.step⟩)
+  ("meta", ⟨Driver.MetaD.St, {}, Driver.MetaD.step⟩),
+  ("hh", ⟨InfluxVerif.HH.Q, Driver.HHD.init 1024 100000, Driver.HHD.step⟩)
 ]
 
 partial def loop (h : IO.FS.Stream) (out : IO.FS.Stream) (H : Handler) (s : H.σ) : IO Unit := do
